@@ -18,7 +18,7 @@ import (
 func vpH_C20_T_readers() {
 	vpSetOpt("race", 1)
 	H := time.Second
-	s := vpConnInstance(H, 2*H, nil)
+	s := vpConnInstance(H, 2*H, map[string]bool{}) // a Logger is configured (it receives what every log site builds)
 	s.kv.opLeft = 40
 	go func() {
 		vpYieldLazy("api.read", 2*H)
@@ -79,7 +79,8 @@ func vpH_C20_T_stop_follower() {
 	variant := vpChoose("variant", 2)
 	go func() {
 		time.Sleep(100 * time.Millisecond)
-		s.st.write("env:other", "delete", nil, true, 0)
+		s.st.write("env:other", "delete", nil, true, 0) // delete marker ...
+		s.st.write("env:other", "delete", nil, true, 0) // ... and purge marker: two acquisition rounds in flight
 	}()
 	go func() {
 		time.Sleep(120 * time.Millisecond)
